@@ -701,7 +701,13 @@ fn lower_fn_parts(sig: &mut Signature, block: &mut Block, errors: &mut Vec<Strin
             if !is_loop {
                 block.stmts.pop();
                 let be = ident("__K2V_BODY_END_S__");
-                block.stmts.push(parse_quote! { let ret__ = #e; });
+                block.stmts.push(Stmt::Local(Local {
+                    attrs: Vec::new(),
+                    let_token: Default::default(),
+                    pat: parse_quote!(ret__),
+                    init: Some(LocalInit { eq_token: Default::default(), expr: Box::new(e), diverge: None }),
+                    semi_token: Default::default(),
+                }));
                 block.stmts.push(parse_quote! { #be; });
                 block.stmts.push(Stmt::Expr(parse_quote! { ret__ }, None));
             }
